@@ -317,7 +317,11 @@ func (b *batch) Reset() {
 
 // Replay replays the batch contents.
 func (b *batch) Replay(w kvdb.Writer) error {
-	return b.b.Replay(&replayer{writer: w})
+	r := &replayer{writer: w}
+	if err := b.b.Replay(r); err != nil {
+		return err
+	}
+	return r.failure
 }
 
 // replayer is a small wrapper to implement the correct replay methods.
@@ -331,6 +335,10 @@ func (r *replayer) Put(key, value []byte) {
 	// If the replay already failed, stop executing ops
 	if r.failure != nil {
 		return
+	}
+	if value == nil {
+		// an empty value comes back from the underlying batch as nil
+		value = []byte{}
 	}
 	r.failure = r.writer.Put(key, value)
 }
